@@ -101,7 +101,13 @@ def main():
         for qi, (x, y, z) in enumerate(item["qs"]):
             for order in range(min(n_orders, item.get("orders", n_orders))):
                 # second scenario: names V<perm(i)>, so alphabetical order and (topological) numbering are unrelated
-                ser.set_naming("permuted", gi * 31 + qi) if order == 1 else ser.set_naming("V")
+                # (every other time: the names the library itself gives to latent parents, u_0, u_1, ...)
+                if order == 1 and (gi + qi) % 2:
+                    ser.set_naming("latent-like")
+                elif order == 1:
+                    ser.set_naming("permuted", gi * 31 + qi)
+                else:
+                    ser.set_naming("V")
                 graph = build_graph(g, order)
                 if order == 2:
                     graph = with_history(g, graph, qi)
